@@ -117,6 +117,8 @@ theorem iterStep_pass3 (u : User α ε) (c : Cfg α) (hU : c.hasUpdate = false) 
           simp only [pure, Except.pure] at h
           injection h with h; injection h with h1 _; subst h1
           refine ⟨Or.inr ?_⟩
+          have hfr' : (memStep c s1).f = e.2.1 ∧ (memStep c s1).cbStates = s.cbStates := hfr
+          generalize memStep c s1 = sm at hs2 hfr'
           unfold doCallback at hs2
           split at hs2
           · simp only [bind, Except.bind] at hs2
@@ -127,11 +129,11 @@ theorem iterStep_pass3 (u : User α ε) (c : Cfg α) (hU : c.hasUpdate = false) 
               injection hs2 with hs2
               cases b <;>
                 (simp only [if_true, Bool.false_eq_true, if_false] at hs2; subst hs2;
-                 exact ⟨by simp only [St.logCall]; rw [hfr.1]; exact hdec,
-                   Or.inr ⟨_, by simp only [St.logCall]; rw [hfr.2], by simp [St.result, St.logCall]⟩⟩)
+                 exact ⟨by simp only [St.logCall]; rw [hfr'.1]; exact hdec,
+                   Or.inr ⟨_, by simp only [St.logCall]; rw [hfr'.2], by simp [St.result, St.logCall]⟩⟩)
           · simp only [pure, Except.pure] at hs2
             injection hs2 with hs2; subst hs2
-            exact ⟨by simp only; rw [hfr.1]; exact hdec, Or.inl (by simp only; exact hfr.2)⟩
+            exact ⟨by simp only; rw [hfr'.1]; exact hdec, Or.inl (by simp only; exact hfr'.2)⟩
 
 theorem iterBody_pass3 (u : User α ε) (o : Oracles α δ) (c : Cfg α) (hU : c.hasUpdate = false)
     (s s' : St α) (flow : Flow) (hcoh : Coh u.toSFUser s.sf)
